@@ -17,7 +17,8 @@ import (
 //
 // case: {"origin":[kinds], "tags":[classes], "omit":[1-based indices], "replace": none|type|typeAndTag, "errshape": none|notStruct|plainStruct|originScalar}
 // obs : {"gen_err","file_written","compile_errors","ran","probe_panic","fields":[{"name","origin_index","type_identical","type_is_replacement","tag_identical","tag_is_replacement"}],
-//        "nil_to_nil","retained_unequal":[names],"omitted_nonzero":[names]}
+//
+//	"nil_to_nil","retained_unequal":[names],"omitted_nonzero":[names]}
 type partialFam struct{}
 
 func init() { core.Register("partial", partialFam{}) }
